@@ -1,6 +1,7 @@
 From Verif Require Import Lib.Base Ledger.SharePool Ledger.SharePoolProofs Ledger.SharePoolSeq Ledger.SharePoolExamples.
 From Verif Require Import Ledger.Debond Ledger.DebondProofs Ledger.DebondExamples.
 From Verif Require Import Ledger.Rewards Ledger.RewardsProofs.
+From Verif Require Import Gen.AtomicConsts Ledger.Msg Ledger.MsgProofs.
 
 (* Deposit (api.go:659): on success the pool becomes (B+a, S+m), m = a when no
    shares exist, else floor(a*S/B); unless the pool holds an orphan balance
@@ -269,3 +270,43 @@ Theorem add_rewards_conserves : forall rd cd accts common factor scale,
   (c <> COk -> cm = common).
 Proof. exact add_rewards_conserves_l. Qed.
 Print Assumptions add_rewards_conserves.
+
+(* Runtime messages are not rolled back individually (roothash/messages.go).
+   A handler whose checks all precede its writes needs no rollback: *)
+Theorem checks_before_writes_atomic_thm : forall steps,
+  no_check_after_write (events_of steps) = true ->
+  forall s w s' c, run_steps s w steps = (s', c) -> c <> MOk -> s' = s.
+Proof. exact checks_before_writes_atomic. Qed.
+Print Assumptions checks_before_writes_atomic_thm.
+
+(* a failed staking message (or transaction) leaves every account, pool,
+   delegation and debonding delegation unchanged *)
+Theorem failed_message_changes_nothing : forall pr s o s' c,
+  lstep pr s o = (s', c) -> c <> MOk -> s' = s.
+Proof. exact failed_message_changes_nothing_l. Qed.
+Print Assumptions failed_message_changes_nothing.
+
+(* the step orders of addEscrow / reclaimEscrow read from the CURRENT source
+   (go/ast, Gen/AtomicConsts.v): no fallible check after the first state write,
+   and the write part is the model's *)
+Theorem escrow_handlers_write_after_last_check :
+  no_check_after_write add_escrow_events = true /\
+  no_check_after_write reclaim_escrow_events = true /\
+  (forall pr m d a, from_first_write add_escrow_events
+                    = from_first_write (events_of (add_escrow_steps pr m d a))) /\
+  (forall pr m d s iv, from_first_write reclaim_escrow_events
+                       = from_first_write (events_of (reclaim_steps pr m d s iv))).
+Proof. exact escrow_handlers_write_after_last_check_l. Qed.
+Print Assumptions escrow_handlers_write_after_last_check.
+
+(* the sender is debited exactly when (and by what) the pool is credited *)
+Theorem add_escrow_debit_credit : forall pr s m d a s',
+  lstep pr s (LAdd m d a) = (s', MOk) ->
+  sget d (lgen s') + a = sget d (lgen s) /\
+  bal (lact s') = bal (lact s) + a /\
+  p_min_transact pr <= sget d (lgen s') /\ p_min_deleg pr <= a /\
+  exists minted, tsh (lact s') = tsh (lact s) + minted /\
+                 sget d (ldels s') = sget d (ldels s) + minted /\
+                 ldeb s' = ldeb s /\ lq s' = lq s.
+Proof. exact add_escrow_debit_credit_l. Qed.
+Print Assumptions add_escrow_debit_credit.
